@@ -84,7 +84,8 @@ inductive Slot
   | mem      -- compress_part's output block
   | input    -- CompressMultiSlice's copy of the input
   | tmp      -- a local variable inside one call (`new_commands`, `new_data`, `command_buf`, scoped temporaries)
-  | tmp2     -- a second local (`literal_buf` of `compress_stream_fast`)
+  | tmp2     -- a second local (`literal_buf` of `compress_stream_fast`, `tmp` of `CommandQueue::push`)
+  | aux      -- helper structures of the IR logger (entropy tally / pyramid, context-map entropy, best strides)
 deriving DecidableEq, Repr
 
 structure Enc where
@@ -101,12 +102,14 @@ structure Enc where
   input : List BlockId := []
   tmp : List BlockId := []
   tmp2 : List BlockId := []
+  aux : List BlockId := []
 deriving Repr
 
 def Enc.get (e : Enc) : Slot → List BlockId
   | .storage => e.storage | .commands => e.commands | .ring => e.ring | .hasher => e.hasher
   | .table => e.table | .cbuf => e.cbuf | .lbuf => e.lbuf | .ext => e.ext | .self => e.self
   | .mem => e.mem | .input => e.input | .tmp => e.tmp | .tmp2 => e.tmp2
+  | .aux => e.aux
 
 def Enc.set (e : Enc) (s : Slot) (v : List BlockId) : Enc :=
   match s with
@@ -116,6 +119,7 @@ def Enc.set (e : Enc) (s : Slot) (v : List BlockId) : Enc :=
   | .self => { e with self := v } | .mem => { e with mem := v } | .input => { e with input := v }
   | .tmp => { e with tmp := v }
   | .tmp2 => { e with tmp2 := v }
+  | .aux => { e with aux := v }
 
 /-- the seven fields of `BrotliEncoderStateStruct` that own allocator memory, with their Rust names -/
 def fieldSlots : List (String × Slot) :=
@@ -125,7 +129,7 @@ def fieldSlots : List (String × Slot) :=
 /-- every block referenced from a slot -/
 def Enc.held (e : Enc) : List BlockId :=
   e.storage ++ e.commands ++ e.ring ++ e.hasher ++ e.table ++ e.cbuf ++ e.lbuf ++ e.ext ++ e.self ++
-    e.mem ++ e.input ++ e.tmp ++ e.tmp2
+    e.mem ++ e.input ++ e.tmp ++ e.tmp2 ++ e.aux
 
 /-- the blocks referenced from the seven owning fields of the state -/
 def Enc.fields (e : Enc) : List BlockId :=
@@ -388,6 +392,46 @@ def fastPath (w : W) (kBlock buf : Nat) : W :=
   -- every site that fills `command_buf_`/`literal_buf_` allocates kBlock elements
   w1.acts (fastEpilogueActs w1 (decide (w.q = 1 ∧ (w.enc.cbuf ≠ [] ∨ buf = kBlock))))
 
+/-! ## A callee inside `ScopedBalanced`: the IR logger's `CommandQueue` (`enc/brotli_bit_stream.rs`)
+
+`LogMetaBlock` (reached from `store_meta_block*` when `params.log_meta_block` is set) builds its helper
+structures, then `CommandQueue::new` allocates `num_commands * 17 / 16 + 4` slots, `process_command_queue`
+pushes the IR (each `push` on a full queue allocates a queue of twice the size, copies, frees the old
+one), and `CommandQueue::free` hands the IR to the callback and frees the helpers and the queue.
+`queue` is the slot `tmp`, the local `tmp` of `push` is the slot `tmp2`, the helpers are `aux`. -/
+
+structure CQ where
+  cap : Nat       -- queue.len()
+  loc : Nat
+  overfull : Bool
+deriving Repr
+
+/-- `CommandQueue::new` -/
+def cqNew (w : W) (numCommands : Nat) : W × CQ :=
+  (w.acts [.alloc w.m8 .tmp 1], ⟨numCommands * 17 / 16 + 4, 0, false⟩)
+
+/-- the growth step of `CommandQueue::push`: `tmp = allocate(2 * len); copy; free_cell(replace(queue, tmp))` -/
+def cqGrowActs (m8 : Nat) : List Act := [.alloc m8 .tmp2 1, .free .tmp, .move .tmp2 .tmp]
+
+/-- `CommandQueue::push` -/
+def cqPush (s : W × CQ) : W × CQ :=
+  let w1 := if s.2.loc = s.2.cap then s.1.acts (cqGrowActs s.1.m8) else s.1
+  let cap1 := if s.2.loc = s.2.cap then s.2.cap * 2 else s.2.cap
+  if s.2.loc ≠ cap1 then (w1, ⟨cap1, s.2.loc + 1, s.2.overfull⟩) else (w1, ⟨cap1, s.2.loc, true⟩)
+
+def cqPushN : Nat → W × CQ → W × CQ
+  | 0, s => s
+  | k + 1, s => cqPushN k (cqPush s)
+
+/-- `CommandQueue::free`: the queue goes back; `Err` (→ `unwrap` panics) iff `overfull` -/
+def cqFree (s : W × CQ) : W × Bool := (s.1.acts [.free .tmp], !s.2.overfull)
+
+/-- the allocation skeleton of `LogMetaBlock`: `k` helper blocks, the queue with `pushes` pushes, the release -/
+def logMetaBlockIR (w : W) (k numCommands pushes : Nat) : W × Bool :=
+  let w1 := w.acts [.alloc w.m8 .aux k]
+  let r := cqFree (cqPushN pushes (cqNew w1 numCommands))
+  (r.1.acts [.free .aux], r.2)
+
 /-! ## Entry points as op sequences -/
 
 /-- ops a caller may apply to a live instance between creation and destruction -/
@@ -431,6 +475,28 @@ def epJob (fl : Flags) (slice : Bool) (ext : List Nat) (dict : Option (Option Na
   body ++ condCleanup fl.partDestroys ++
   (if ok then (if fl.multiFreesOutputs then [.freeMem] else []) else (if fl.partErrFrees then [.freeMem] else [])) ++
   (if slice ∧ fl.sliceFreesInput then [.freeInput] else [])
+
+/-- a job thread that panics: every value it owns is dropped without `free_cell` -/
+def abandonAllActs : List Act :=
+  [.lose .storage, .lose .commands, .lose .ring, .lose .hasher, .lose .table, .lose .cbuf, .lose .lbuf,
+   .lose .ext, .lose .self, .lose .mem, .lose .input, .lose .tmp, .lose .tmp2, .lose .aux]
+
+/-- what `CompressMulti`'s join loop does with the jobs when job `p` panics (`join()` returns `Err`, the
+    function returns at once): jobs before `p` were joined and stitched, job `p` unwound, the jobs after
+    it — including the last one, which the coordinator ran itself — completed but are never joined: their
+    result (output block + allocator) is dropped -/
+inductive JobFate
+  | joined | panicked | unjoined
+deriving DecidableEq, Repr
+
+def multiFates (t : Nat) (p : Option Nat) : List JobFate :=
+  (List.range t).map (fun i => match p with
+    | none => .joined
+    | some k => if i < k then .joined else if i = k then .panicked else .unjoined)
+
+/-- the flags as an un-joined job experiences them: nobody frees its output, nobody frees the input copy
+    (`CompressMultiSlice` only does so when allocator 0 came back) -/
+def Flags.unjoined : Flags := { Flags.allTrue with multiFreesOutputs := false, sliceFreesInput := false }
 
 def W.init (m8 q : Nat) : W := { m8 := m8, q := q }
 
